@@ -25,8 +25,8 @@ Extraction "skv_model.ml"
   Table.t_valid Table.t_entry Table.is_key_in_key_range Table.is_before_range Table.is_after_range Table.overlaps_with_range
   Params.IK_SEQ_NUM_MAX Params.IK_TIMESTAMP_MAX Params.IK_KIND_DELETE Params.IK_KIND_SOFTDELETE Params.IK_KIND_SET Params.IK_KIND_MERGE
   Params.IK_KIND_LOGDATA Params.IK_KIND_RANGEDELETE Params.IK_KIND_REPLACE Params.IK_KIND_SEPARATOR Params.IK_KIND_MAX Params.IK_KIND_INVALID
-  Fail.wal0 Fail.segments Fail.cur_buf Fail.plan_wenv Fail.plan_senv Fail.acked Fail.emitted
-  Fail.known_mid_emit_failure Fail.known_used_after_failure Fail.known_fsync_failed FailInst.fi_step FailInst.fail_params_ok FailInst.FC
+  Fail.walx0 Fail.segments Fail.cur_buf Fail.plan_wenv Fail.plan_senv Fail.xacked Fail.xack_after
+  Fail.xknown_fsync_failed FailInst.fi_xstep FailInst.fail_params_ok FailInst.FC
   Params.TBL_BLOCK_CKSUM_LEN Params.TBL_BLOCK_COMPRESS_LEN Params.BLOOM_BITS_PER_KEY Params.BLOOM_K
   Regions.table_regions Regions.table_len Regions.wal_regions Regions.wal_descr Regions.wal_rec_ends Regions.vlog_regions Regions.footer_zero Regions.alter Regions.footer_check
   RegionsInst.tbl_read_block RegionsInst.vlog_get_full RegionsInst.c16_params_ok
